@@ -410,7 +410,7 @@ BRefinesA ==
   Finished =>
     /\ (S.err = "" => St \in {"unique", "ambiguous"})
     /\ (St = "unique" => S.err = "")
-    /\ (S.err = "" => \A key \in BadOf(c.prog, c.exp, S) : EnumSelCandidate(c.prog, S, key))
+    /\ (S.err = "" => \A key \in BadOf(c.prog, c.exp, S) : ~SelFixed /\ EnumSelCandidate(c.prog, S, key))
     /\ (S.err = "" => \A f \in 1 .. NFiles(c.prog) : S.n2c[f] = c.exp.n2c[f])
 
 \* the final resolution state does not depend on the order of the definitions
